@@ -1972,7 +1972,7 @@ class DerivIntExchange(Rule):
         elif e.is_indefinite_integral() and e.body.is_deriv():
             return Deriv(e.body.var, IndefiniteIntegral(e.var, e.body.body, e.skolem_args))
         elif e.is_integral() and e.body.is_deriv():
-            return Deriv(e.body.var, Integral(e.var, e.upper, e.lower, e.body.body))
+            return Deriv(e.body.var, Integral(e.var, e.lower, e.upper, e.body.body))
         else:
             return e
 
